@@ -41,7 +41,7 @@ def parse_stream(js):
 
 
 def includes_for(types, present):
-    out = [tuple(types)]
+    out = [tuple(types), ()]  # all types of the grid; the explicitly empty set (nothing is included)
     for t in types:
         if t in present:
             out.append(tuple(x for x in types if x != t))
@@ -106,8 +106,9 @@ def to_impl_item(x):
 def eval_handbuilt(plain, holds, mode, pol):
     groups = handbuilt_groups(plain, holds, mode)
     igroups = [[to_impl_item(x) for x in g] for g in groups]
-    splitting = [n for n in plain if any(h[1] == n[1] and h[4] == n[3] and h[0] < n[0] < h[3] for h in holds)]
     heads = [(h[0], h[1], h[2], h[4], h[5]) for h in holds]
+    # notes lying inside a joined hold on its column: plain notes, and the head of another joined hold
+    splitting = [n for n in plain + heads if any(h[1] == n[1] and h[4] == n[3] and h[0] < n[0] < h[3] for h in holds)]
     tails = [(h[3], h[1], M.TAIL, h[4], None) for h in holds]
     try:
         back = [N.from_impl(n) for n in N.ungroup_notes(iter(igroups), orphaned_notes=N.POLICY[pol])]
@@ -135,8 +136,8 @@ def eval_handbuilt(plain, holds, mode, pol):
         if obs[0] == "raise" and obs[1] in splitting:
             return None
         return (("raise", splitting), obs)
-    keep = [n for n in plain if not (pol == M.DROP and n in splitting)]
-    expected = sorted(keep + heads + tails, key=M.position)
+    keep = [n for n in plain + heads if not (pol == M.DROP and n in splitting)]
+    expected = sorted(keep + tails, key=M.position)
     if obs[0] != "ok":
         return (("ok", expected), obs)
     if mode == M.BY_TYPE:
@@ -239,8 +240,15 @@ def explore_shard(acc, shard):
         for i2 in range(4):
             for j2 in range(i2 + 1, 4):
                 second.append((beats[i2], c2, M.ROLL, beats[j2], 0, None))
+        # ... or in the same column, beginning inside the first hold (its head is then a splitting note)
+        for i2 in range(i1 + 1, j1):
+            for j2 in range(i2 + 1, 4):
+                if j2 != j1:
+                    second.append((beats[i2], c1, M.ROLL, beats[j2], 0, 3))
         for h2 in second:
             holds = [hold1] + ([h2] if h2 else [])
+            if h2 and h2[1] == c1:
+                acc.outcome("joined hold beginning inside another joined hold of its column")
             taken = set()
             for h in holds:
                 taken.add((beats.index(h[0]), h[1]))
@@ -262,7 +270,7 @@ def explore_shard(acc, shard):
                         core.guard_cheap(acc, case)
                         r = eval_handbuilt(plain, holds, mode, pol)
                         acc.count("evaluations")
-                        splitting = any(any(h[1] == n[1] and h[0] < n[0] < h[3] for h in holds) for n in plain)
+                        splitting = any(any(h[1] == n[1] and h[0] < n[0] < h[3] for h in holds) for n in plain + [(h[0], h[1]) for h in holds])
                         if splitting:
                             acc.outcome(f"note inside a joined hold, policy {pol}")
                         if r is not None:
@@ -338,7 +346,7 @@ def explore(run):
     run.rule = (
         "R: streams built row by row on grids "
         + ", ".join(f"{g}={c}col x<={t if run.thorough() else q}rows over {' '.join(a)}" for g, (c, a, q, t) in GRIDS.items())
-        + "; every node x include sets (all types, all-but-one present type) x 3 same-beat modes x (join off + join on x 3x3 orphan policies) x 3 ungroup policies, "
+        + "; every node x include sets (all types, all-but-one present type, the empty set) x 3 same-beat modes x (join off + join on x 3x3 orphan policies) x 3 ungroup policies, "
         "compared with 'the included notes minus exactly the orphans the model says were dropped'; "
         "H: one or two NoteWithTail on a 2x4 grid + <=2 plain notes in every other cell x 3 groupings x 3 policies; corpus charts. "
         "Non-trivial = stream has a head and a tail / a hand-built sequence with plain notes."
@@ -352,6 +360,7 @@ def explore(run):
     core.require(acc.outcomes["round trip with dropped-orphan policy"] > 0, "no dropped-orphan policy")
     for pol in N.POLICIES:
         core.require(acc.outcomes[f"note inside a joined hold, policy {pol}"] > 0, f"no splitting note under {pol}")
+    core.require(acc.outcomes["joined hold beginning inside another joined hold of its column"] > 0, "no nested joined hold")
     return run.finish(
         states=acc.c["states"],
         transitions=acc.c["transitions"],
